@@ -377,12 +377,18 @@ func (c *GroupCoordinator) OffsetCommit(ctx context.Context, req *kmsg.OffsetCom
 		for _, part := range topic.Partitions {
 			code := groupErr
 			if code == protocol.NONE {
-				meta := ""
-				if part.Metadata != nil {
-					meta = *part.Metadata
-				}
-				if err := c.store.CommitConsumerOffset(ctx, req.Group, topic.Topic, part.Partition, part.Offset, meta); err != nil {
-					code = protocol.UNKNOWN_SERVER_ERROR
+				if !metadata.ValidTopicName(topic.Topic) {
+					// Offset keys interpolate group and topic; only legal topic
+					// names keep keys of different (group, topic) pairs apart.
+					code = protocol.INVALID_TOPIC_EXCEPTION
+				} else {
+					meta := ""
+					if part.Metadata != nil {
+						meta = *part.Metadata
+					}
+					if err := c.store.CommitConsumerOffset(ctx, req.Group, topic.Topic, part.Partition, part.Offset, meta); err != nil {
+						code = protocol.UNKNOWN_SERVER_ERROR
+					}
 				}
 			}
 			partResp := kmsg.NewOffsetCommitResponseTopicPartition()
